@@ -14,7 +14,7 @@ FUNCTIONS = {
 }
 FUNCTIONS['kripke'] = ['Kripke.__init__', 'Kripke.labels', 'Kripke.states', 'Kripke.next', 'Kripke.transitions_iter',
                        'Kripke.transitions', 'Kripke.clone', 'Kripke.get_substructure']
-FUNCTIONS['ctl'] = ['_checkAtomicProposition', '_checkNot', '_checkEX', '_checkOr', '_checkStateFormula', '_checkEU', '_checkEG', 'modelcheck']
+FUNCTIONS['ctl'] = ['_checkAtomicProposition', '_checkNot', '_checkEX', '_checkOr', '_checkStateFormula', '_checkEU', '_checkEG', 'modelcheck', 'CTL.modelcheck(text)']
 FUNCTIONS['rewrite'] = ['LNot'] + ['%s.get_equivalent_restricted_formula' % c for c in
                                    ('AtomicProposition', 'Not', 'A', 'E', 'X', 'F', 'G', 'Or', 'And', 'Imply', 'U', 'R')]
 FUNCTIONS['rewrite'] += ['EX', 'EG', 'EU', 'CTL.A.get_equivalent_restricted_formula', 'CTL.E.get_equivalent_restricted_formula']
@@ -37,7 +37,7 @@ PROPERTY_FUNCTIONS = {
     # own functions + the callee contracts the labelling relies on directly (their owners C13/C14 verify the rest)
     'C01': FUNCTIONS['ctl'] + ['Kripke.labels', 'Kripke.states', 'Kripke.next', 'Kripke.transitions_iter',
                                'DiGraph.get_subgraph', 'DiGraph.get_reversed_graph', 'DiGraph.add_edge', 'DiGraph.add_node',
-                               'DiGraph.nodes', 'DiGraph.next', 'DiGraph.get_reachable_set_from'],
+                               'DiGraph.nodes', 'DiGraph.next', 'DiGraph.get_reachable_set_from', 'Parser.__call__'],
     'C07': FUNCTIONS['ctl'] + ['Kripke.clone', 'Kripke.labels', 'Kripke.states', 'Kripke.next', 'Kripke.transitions_iter',
                                'DiGraph.get_subgraph', 'DiGraph.get_reversed_graph', 'DiGraph.get_reachable_set_from'] + FUNCTIONS['ctls'] + FUNCTIONS['ltl'] + FUNCTIONS['fair'],
     'C19': FUNCTIONS['ctl'] + ['Kripke.labels', 'Kripke.states', 'Kripke.next', 'Kripke.transitions_iter'] + FUNCTIONS['ctls'] + FUNCTIONS['ltl'],
@@ -60,6 +60,8 @@ TRUSTED = {
             '(d) rtc = reflexive-transitive closure: edge/transitivity/last-step axioms, the induction schema and "closure of the converse = converse of the closure" (vf/pyvc/heap.py, trusted mathematics), '
             '(e) the generator compute_SCCs is consumed as if evaluated eagerly (the loop body writes only the fresh set T, which the generator does not read)',
             'least-fixpoint principle of E(phi U psi) (second-order schema, trusted semantics) instantiated syntactically at the returned set',
+            'text leg (contract CTL.modelcheck(text), parser=None): the answer is sat of the formula object the default parser returns, parse errors propagate as the package\'s ParserError subclasses; '
+            'which object the parser returns for a string is C09/C10 (bounded) and the ASSUMED contract of lark.Lark.parse',
             'precondition: Python None is not a state (KF-C19-1)'],
     'C05': ['documented path semantics as axioms over abstract evaluation points (vf/pyvc/formula_sem.py axioms(); logics.rst) incl. skolemised quantifiers',
             'induction hypothesis = the contract itself for recursive calls on subformulas (partial correctness)',
